@@ -1584,12 +1584,15 @@ func main() {
 		wg.Wait()
 		bw := bufio.NewWriterSize(os.Stdout, 1<<20)
 		defer bw.Flush()
-		for _, o := range outs {
+		// every output line carries the position of its history in the input, so that the caller can match
+		// outputs to inputs whatever else ends up on stdout
+		for i, o := range outs {
 			if o == "" {
 				o = `{"steps":[],"err":"worker died"}`
 			}
+			bw.WriteString(fmt.Sprintf(`{"hid":%d,"t":`, i))
 			bw.WriteString(o)
-			bw.WriteString("\n")
+			bw.WriteString("}\n")
 		}
 		for _, e := range errs {
 			if e != nil {
